@@ -1,11 +1,24 @@
 """C18 — time-warping cost is the optimal coupling cost and the matching realises it
 (tracklib/algo/comparison.py: match / compare in the DTW, FDTW and FRECHET modes)."""
 import math, itertools
-from engine import Prop, fbits, bitsf, close, untok
+from engine import Prop, fbits, bitsf, close, untok, err_kind, load_known
 
 PS = ["1", "2", "inf"]
 PVAL = {"1": 1, "2": 2, "inf": float("inf")}
 TOL = 1e-9
+
+# ---------------------------------------------------------------------------------- how the exponent p is handed over
+# forms of a finite p = 0, 1, 2, 3 and of p = infinity; "fn" = a lambda computing the accumulation, "max" = the builtin
+FIN_FORMS = ["int", "float", "np.int8", "np.int16", "np.int32", "np.int64", "np.intc", "np.uint8", "np.uint16", "np.uint32",
+             "np.uint64", "np.float16", "np.float32", "np.float64", "fn"]
+INF_FORMS = ["float", "math.inf", "np.inf", "np.float16", "np.float32", "np.float64", "np.longdouble", "fn", "max"]
+# numpy scalar types whose name contains neither 'int' nor 'float': _p2weight leaves `weight` unbound for p not in {0, inf}
+UNBOUND_FORMS = ["np.longlong", "np.ulonglong", "np.longdouble"]
+LOWPREC_FORMS = ["np.float16", "np.float32"]
+MODE_MATCH = {"dtw": 2, "fdtw": 3, "frechet": 4}
+MODE_CMP = {"dtw": 106, "fdtw": 107, "frechet": 108}
+CLS_UNBOUND = "p-numpy-type-name-without-int-or-float"
+CLS_LOWPREC = "fdtw-exponent-float16-float32"
 
 
 # ---------------------------------------------------------------------------------- tracks
@@ -44,7 +57,9 @@ def ocost(a, b, dim, p):
             return (a[2] - b[2]) ** 2
         s = (a[0] - b[0]) ** 2 + (a[1] - b[1]) ** 2
         return s if dim == 2 else s + (a[2] - b[2]) ** 2
-    return odist(a, b, dim)
+    if p in ("1", "inf"):
+        return odist(a, b, dim)
+    return odist(a, b, dim) ** int(p)      # p = 3, 4, …
 
 
 def acc(p, x, c):
@@ -97,7 +112,7 @@ def coupling_of(pairs):
     return [(i, j) for j, l in enumerate(pairs) for i in l]
 
 
-def check_matching(C, p, out, n1, n2, what):
+def check_matching(C, p, out, n1, n2, what, cost=True):
     """the returned matching is a coupling, links everything, and costs `score`"""
     pairs = out["pairs"]
     if len(pairs) != n1:
@@ -122,6 +137,8 @@ def check_matching(C, p, out, n1, n2, what):
             return "%s: the matching is not a monotone unit-step coupling: %s then %s (pairs %s)" % (what, a, b, pairs)
     if out["nb_links"] != len(path):
         return "%s: nb_links = %s but the matching has %d links" % (what, out["nb_links"], len(path))
+    if not cost:
+        return None
     a = 0.0
     for (i, j) in path:
         a = acc(p, a, C[i][j])
@@ -168,8 +185,12 @@ class P(Prop):
         from tracklib.core.obs_time import ObsTime
         from tracklib.core.track import Track
         import tracklib.algo.comparison as C
+        import numpy as np
         self.C = C
+        self.np = np
         self.mk = lambda tr: Track([Obs(ENUCoords(x, y, z), ObsTime()) for (x, y, z) in pts(tr)])
+        # inputs of a listed (unrepaired) finding are generated only while it is listed: see classify()
+        self.listed = {e.get("class") for e in load_known(self.id) if e.get("status") == "finding"}
         self.MM = {"dtw": C.MODE_MATCHING_DTW, "fdtw": C.MODE_MATCHING_FDTW, "frechet": C.MODE_MATCHING_FRECHET}
         self.CM = {"dtw": C.MODE_COMPARISON_DTW, "fdtw": C.MODE_COMPARISON_FDTW, "frechet": C.MODE_COMPARISON_FRECHET}
 
@@ -237,7 +258,99 @@ class P(Prop):
                 out.append({"kind": "cmp", "mode": mode, "p": ps[0], "dim": dim, "a": a, "b": b})
             else:
                 out.append({"kind": "m", "mode": mode, "ps": ps, "dim": dim, "a": a, "b": b})
+        out += self.seq_cases(rng, tier)
         return out
+
+    # ---------------------------------------------------------------- sessions: histories, argument forms, front ends
+    @staticmethod
+    def step(f, a, b, mode, p, pf="int", dim=2, mf="const", df="int", vb="F", st="kw"):
+        """one call of a session: f = m (match) | c (compare); a, b = 't<k>' (track k) | 'r<k>' (what step k returned);
+        mode = dtw | fdtw | frechet | bad (a constant of the other front end); mf = how the constant is passed
+        (const | np | float | default); p = '0' '1' '2' '3' 'inf' in the form pf (FIN_FORMS / INF_FORMS / default);
+        dim in the form df (int | np | float | default); vb = verbose F | T | default; st = kw | pos"""
+        return {"f": f, "a": a, "b": b, "mode": mode, "mf": mf, "p": p, "pf": pf, "dim": dim, "df": df, "vb": vb, "st": st}
+
+    def seq_cases(self, rng, tier):
+        out = []
+        th = tier == "thorough"
+        modes = ["dtw", "fdtw", "frechet"]
+        # (S1) a matched track matched again: every pair of modes, three pairs of exponents, all pairs of small lattice tracks
+        ts = lat_tracks(3, 3 if th else 2)
+        for a in ts:
+            for b in ts:
+                c = "".join(str(2 - int(ch)) for ch in b) + "1"
+                for mA in modes:
+                    for mB in modes:
+                        for (pA, pB) in (("1", "1"), ("2", "inf"), ("inf", "2")):
+                            out.append({"kind": "seq", "tracks": ["3:" + a, "3:" + b, "3:" + c], "pre": ["none"] * 3,
+                                        "steps": [self.step("m", "t0", "t1", mA, pA, "int" if pA != "inf" else "float", 1),
+                                                  self.step("m", "r0", "t2", mB, pB, "int" if pB != "inf" else "float", 1)]})
+        # (S2) every form of p, every value, both front ends, DTW and FDTW, on fixed pairs of tracks
+        fixed = [("3:0120", "3:1021", 1), ("3:048", "3:6420", 2), ("2:0132", "2:31", 2),
+                 ([[0, 0, 0], [1, 0, 0.5], [2, 0.5, 1], [3, 0, 0], [4, 0.25, 2]], [[0, 1, 0], [1.5, 1, 1], [3, 1.25, 0], [4.25, 1, 3]], 2),
+                 ([[0.1, 0.2, 0.3], [1.3, -0.7, 0.9], [2.2, 0.4, -1.1]], [[0.3, 0.1, 0.2], [0.9, 1.1, 0.8], [2.5, 0.2, 0.1], [2.9, -0.3, 1.7]], 3),
+                 ([[0, 0, 3.5], [0, 0, 1.25], [0, 0, 2.75], [0, 0, 0.5]], [[0, 0, 1.5], [0, 0, 3.0], [0, 0, 0.25]], 1)]
+        forms = [(p, pf) for p in ("0", "1", "2", "3") for pf in FIN_FORMS] + [("inf", pf) for pf in INF_FORMS]
+        for (a, b, dim) in fixed:
+            for (p, pf) in forms:
+                for mode in ("dtw", "fdtw"):
+                    for f in ("m", "c"):
+                        if self.gated(f, mode, p, pf):
+                            continue
+                        out.append({"kind": "seq", "tracks": [a, b], "pre": ["none", "none"],
+                                    "steps": [self.step(f, "t0", "t1", mode, p, pf, dim)]})
+            for cls, fs in ((CLS_UNBOUND, UNBOUND_FORMS), (CLS_LOWPREC, LOWPREC_FORMS)):
+                if cls in self.listed:
+                    for pf in fs:
+                        out.append({"kind": "seq", "tracks": [a, b], "pre": ["none", "none"],
+                                    "steps": [self.step("m", "t0", "t1", "fdtw", "2", pf, dim)]})
+        # (S3) random sessions
+        for k in range(30000 if th else 4000):
+            out.append(self.rand_session(rng))
+        return out
+
+    def gated(self, f, mode, p, pf):
+        """inputs of the two findings reported with this check (listed in known_findings.json or not generated)"""
+        if pf in UNBOUND_FORMS and p not in ("0", "inf") and mode != "frechet":
+            return CLS_UNBOUND
+        if pf in LOWPREC_FORMS and p not in ("0", "inf") and (mode == "fdtw" or (f == "c" and p not in ("1", "2"))):
+            return CLS_LOWPREC     # also compare(): `1.0/p` is evaluated in the precision of p (1/3 in float16)
+        return None
+
+    def rand_session(self, rng):
+        nt = rng.randint(2, 4)
+        style = rng.choice(["lat3", "lat3", "lat2", "half", "float", "line"])
+        hi = 4 if rng.random() < 0.6 else 7
+        tracks = [self.rand_track(rng, rng.randint(1, hi), style) for _ in range(nt)]
+        pre = [rng.choice(["lists", "scalars", "partial"]) if rng.random() < 0.12 else "none" for _ in range(nt)]
+        steps, okres = [], []
+        for k in range(rng.choice([1, 1, 2, 2, 3, 4])):
+            f = "m" if rng.random() < 0.8 else "c"
+            a = "r%d" % rng.choice(okres) if okres and rng.random() < 0.55 else "t%d" % rng.randrange(nt)
+            b = "r%d" % rng.choice(okres) if okres and rng.random() < 0.2 else "t%d" % rng.randrange(nt)
+            mode = rng.choice(["dtw", "dtw", "fdtw", "frechet"])
+            if rng.random() < 0.03:
+                mode = "bad"
+            p = rng.choice(["1", "1", "2", "2", "inf", "inf", "3", "0"])
+            pf = rng.choice(INF_FORMS if p == "inf" else FIN_FORMS)
+            r = rng.random()
+            if r < 0.25:
+                pf = "float" if p == "inf" else rng.choice(["int", "float"])
+            elif r < 0.32 and p == "1":
+                pf = "default"
+            if self.gated(f, mode, p, pf):
+                pf = "float"
+            dim = rng.choice([1, 2, 2, 3])
+            df = rng.choice(["int", "int", "np", "float"]) if dim != 2 or rng.random() < 0.8 else "default"
+            mf = rng.choice(["const", "const", "const", "np", "float"])
+            if f == "m" and mode == "dtw" and rng.random() < 0.2:
+                mf = "default"
+            vb = rng.choice(["F", "F", "T", "default"])
+            st = rng.choice(["kw", "kw", "pos"])
+            steps.append(self.step(f, a, b, mode, p, pf, dim, mf, df, vb, st))
+            if f == "m" and mode != "bad":
+                okres.append(k)
+        return {"kind": "seq", "tracks": tracks, "pre": pre, "steps": steps}
 
     def rand_track(self, rng, n, style):
         if style == "lat3":
@@ -274,6 +387,13 @@ class P(Prop):
         return tie
 
     def describe(self, case):
+        if case["kind"] == "seq":
+            sts = case["steps"]
+            return {"kind": "seq", "calls": len(sts), "front": ",".join(sorted({st["f"] for st in sts})),
+                    "first_argument_already_matched": any(st["a"].startswith("r") for st in sts),
+                    "track_with_earlier_features": any(q != "none" for q in case["pre"]),
+                    "p_form": sts[0]["pf"], "p": sts[0]["p"], "mode": sts[0]["mode"],
+                    "argument_style": "%s mode=%s dim=%s verbose=%s" % (sts[0]["st"], sts[0]["mf"], sts[0]["df"], sts[0]["vb"])}
         t1, t2 = pts(case["a"]), pts(case["b"])
         return {"kind": case["kind"], "mode": case["mode"], "dim": case["dim"],
                 "p": ",".join(case["ps"]) if case["kind"] == "m" else case["p"],
@@ -282,7 +402,215 @@ class P(Prop):
 
     def nontrivial(self, case):
         # at least one interior cell: a genuine three-way minimum and a back-pointer choice
+        if case["kind"] == "seq":
+            return any(len(self.geo(case, st["a"])) >= 2 and len(self.geo(case, st["b"])) >= 2 for st in case["steps"])
         return len(pts(case["a"])) >= 2 and len(pts(case["b"])) >= 2
+
+    # ---------------------------------------------------------------- sessions: helpers
+    @staticmethod
+    def geo(case, ref):
+        """the positions of object `ref`: a track of the session, or (the track `match` returns is a copy of its first
+        argument) those of the first argument of the step that produced it"""
+        while ref[0] == "r":
+            ref = case["steps"][int(ref[1:])]["a"]
+        return pts(case["tracks"][int(ref[1:])])
+
+    @staticmethod
+    def idx(case, ref):
+        return int(ref[1:]) + (len(case["tracks"]) if ref[0] == "r" else 0)
+
+    def mkp(self, p, pf):
+        """the object handed over as `p`"""
+        np = self.np
+        if pf == "fn":
+            if p == "inf":
+                return lambda A, B: max(A, B)
+            k = int(p)
+            return (lambda A, B: A + (B != 0) * 1) if k == 0 else (lambda A, B: A + B ** k)
+        if pf == "max":
+            return max
+        if p == "inf":
+            if pf in ("float", "math.inf", "np.inf"):
+                return {"float": float("inf"), "math.inf": math.inf, "np.inf": np.inf}[pf]
+            return getattr(np, pf[3:])("inf")
+        k = int(p)
+        if pf in ("int", "default"):
+            return k
+        if pf == "float":
+            return float(k)
+        return getattr(np, pf[3:])(k)
+
+    def mk_pre(self, tr, pre):
+        """a track of the session; `pre`: it already carries features under the names `match` writes"""
+        t = self.mk(tr)
+        n = t.size()
+        if pre == "lists":
+            t.createAnalyticalFeature("diff", 5.0)
+            t.createAnalyticalFeature("pair", [[9, j] for j in range(n)])
+            t.createAnalyticalFeature("ex", 6.0)
+            t.createAnalyticalFeature("ey", 7.0)
+        elif pre == "scalars":
+            for nm, v in (("diff", 5.0), ("pair", 7.0), ("ex", 6.0), ("ey", 7.0)):
+                t.createAnalyticalFeature(nm, v)
+        elif pre == "partial":
+            t.createAnalyticalFeature("speed", 1.0)
+            t.createAnalyticalFeature("pair", [[9, j] for j in range(n)])
+            t.createAnalyticalFeature("ey", 7.0)
+        return t
+
+    def call(self, st, A, B):
+        np = self.np
+        C = self.C
+        fn = C.match if st["f"] == "m" else C.compare
+        conv = {"const": int, "int": int, "np": np.int64, "float": float}
+        args = []        # (name, value) in the order of the signature: mode, p, dim, verbose
+        if st["mf"] != "default":
+            if st["mode"] == "bad":
+                v = (MODE_CMP if st["f"] == "m" else MODE_MATCH)["dtw"]
+            else:
+                v = (MODE_MATCH if st["f"] == "m" else MODE_CMP)[st["mode"]]
+            args.append(("mode", conv[st["mf"]](v)))
+        if st["pf"] != "default":
+            args.append(("p", self.mkp(st["p"], st["pf"])))
+        if st["df"] != "default":
+            args.append(("dim", conv[st["df"]](st["dim"])))
+        if st["vb"] != "default":
+            args.append(("verbose", st["vb"] == "T"))
+        pos, kw = [], dict(args)
+        if st["st"] == "pos":
+            for nm in ("mode", "p", "dim", "verbose"):
+                if nm not in kw:
+                    break
+                pos.append(kw.pop(nm))
+        return fn(A, B, *pos, **kw)
+
+    def impl_seq(self, case):
+        objs = [self.mk_pre(tr, pre) for tr, pre in zip(case["tracks"], case["pre"])]
+        res = []
+        for st in case["steps"]:
+            A, B = objs[self.idx(case, st["a"])], objs[self.idx(case, st["b"])]
+            if A is None or B is None:
+                res.append({"err": "bad-ref"})
+                objs.append(None)
+                continue
+            try:
+                r = self.call(st, A, B)
+            except BaseException as e:
+                if isinstance(e, KeyboardInterrupt):
+                    raise
+                res.append({"err": err_kind(e), "detail": str(e)[:120]})
+                objs.append(None)
+                continue
+            if st["f"] == "m":
+                res.append(self.out_of(r))
+                objs.append(r)
+            else:
+                res.append({"value": float(r)})
+                objs.append(None)
+        return {"steps": res}
+
+    def req_seq(self, case):
+        n = len(case["tracks"])
+        toks = []
+        for st in case["steps"]:
+            if st["mf"] == "default":
+                mode = MODE_MATCH["dtw"] if st["f"] == "m" else 101
+            elif st["mode"] == "bad":
+                mode = (MODE_CMP if st["f"] == "m" else MODE_MATCH)["dtw"]
+            else:
+                mode = (MODE_MATCH if st["f"] == "m" else MODE_CMP)[st["mode"]]
+            ty = str(type(self.mkp(st["p"], st["pf"]))).replace(" ", "")
+            val, fnw = (("-", st["p"]) if st["pf"] in ("fn", "max") else (st["p"], "-"))
+            toks.append(":".join([st["f"], str(mode), ty, val, fnw, str(st["dim"]), str(self.idx(case, st["a"])), str(self.idx(case, st["b"]))]))
+        return ["C18.seq %s %s %s" % ("|".join(self.tok(t) for t in case["tracks"]),
+                                      ",".join("0" if q == "none" else "1" for q in case["pre"]), ";".join(toks))]
+
+    def dec_seq(self, case, replies):
+        if replies[0] == "bad-request":
+            raise ValueError("bad-request")
+        res = []
+        for st, r in zip(case["steps"], replies[0].split(" | ")):
+            if r.startswith("err:") or r in ("bad-ref", "unmodelled"):
+                res.append({"err": r})
+            elif st["f"] == "m":
+                res.append(self.parse_out(r))
+            else:
+                res.append({"value": bitsf(r)})
+        return {"steps": res}
+
+    def exact_tracks(self, t1, t2, dim):
+        for q in t1 + t2:
+            if any(v * 2 != int(v * 2) or abs(v) > 1000 for v in q):
+                return False
+        if dim == 1:
+            return True
+        return all(odist(a, b, dim) * 2 == int(odist(a, b, dim) * 2) for a in t1 for b in t2)
+
+    def cmp_seq(self, case, impl_out, model_out):
+        if "steps" not in impl_out or "steps" not in model_out:
+            return "impl=%s model=%s" % (str(impl_out)[:300], str(model_out)[:300])
+        for k, st in enumerate(case["steps"]):
+            io, mo = impl_out["steps"][k], model_out["steps"][k]
+            if self.gated(st["f"], st["mode"], st["p"], st["pf"]) == CLS_LOWPREC:
+                continue     # d**p is computed in float16/float32 there: listed finding, the model works in float64
+            if "err" in io or "err" in mo:
+                if io.get("err") != mo.get("err"):
+                    return "call %d: impl=%s model=%s" % (k, str(io)[:200], str(mo)[:200])
+                continue
+            if st["f"] == "c":
+                if not close(io["value"], mo["value"], TOL):
+                    return "call %d: compare impl=%r model=%r" % (k, io["value"], mo["value"])
+                continue
+            if io["pairs"] != mo["pairs"]:
+                t1, t2 = self.geo(case, st["a"]), self.geo(case, st["b"])
+                pe = "inf" if st["mode"] == "frechet" else st["p"]
+                Cm = cost_matrix(t1, t2, st["dim"], pe)
+                bad = check_matching(Cm, pe, io, len(t1), len(t2), "implementation", pe != "0") or \
+                    check_matching(Cm, pe, mo, len(t1), len(t2), "model", pe != "0")
+                if bad or not close(io["score"], mo["score"], TOL):
+                    return "call %d: pairs impl=%s model=%s (%s)" % (k, io["pairs"], mo["pairs"], bad or "scores differ")
+                if self.exact_tracks(t1, t2, st["dim"]):
+                    return "call %d: exact-arithmetic input, yet the couplings differ: impl=%s model=%s" % (k, io["pairs"], mo["pairs"])
+                continue
+            if not close(io, mo, TOL):
+                return "call %d: impl=%s model=%s" % (k, io, mo)
+        return None
+
+    def step_failure(self, case, st, o):
+        """the property's oracle on what one call returned"""
+        t1, t2 = self.geo(case, st["a"]), self.geo(case, st["b"])
+        n1, n2 = len(t1), len(t2)
+        if n1 == 0 or n2 == 0 or st["mode"] == "bad":
+            return None     # sizes 1..n; a constant of the other front end is refused (UnknownModeError), not part of the statement
+        what = "%s(%s, %s, %s, p=%s as %s, dim=%d)" % ("match" if st["f"] == "m" else "compare", st["a"], st["b"], st["mode"], st["p"], st["pf"], st["dim"])
+        if st["f"] == "c" and st["pf"] in ("fn", "max"):
+            return None     # compare() with a callable p: outside the statement (p in {1, 2, infinity}); correspondence only
+        if "err" in o:
+            return "%s raised %s (%s)" % (what, o["err"], o.get("detail", ""))
+        pe = "inf" if st["mode"] == "frechet" else st["p"]
+        dim = st["dim"]
+        if st["f"] == "c":
+            if pe != "inf":
+                return None   # (score/nb_links)^(1/p): not part of the statement; correspondence only
+            want = optimum(cost_matrix(t1, t2, dim, "inf"), "inf")
+            if not close(o["value"], want, TOL):
+                return "%s = %r, the discrete Frechet distance (least maximal link over all couplings) is %r" % (what, o["value"], want)
+            return None
+        Cm = cost_matrix(t1, t2, dim, pe if pe != "0" else "1")
+        if pe != "0":      # p = 0 (number of links with a non-zero distance; 0**0 is a convention): only the matching is judged
+            want = optimum(Cm, pe)
+            if not close(o["score"], want, TOL):
+                return "%s: score %r, the least accumulated cost over all monotone couplings for the requested p is %r" % (what, o["score"], want)
+        return check_matching(Cm, pe, o, n1, n2, what, pe != "0")
+
+    def first_failure(self, case, out):
+        if "err" in out or "steps" not in out:
+            return (0, "raised %s (%s)" % (out.get("err"), out.get("detail", "")))
+        for k, st in enumerate(case["steps"]):
+            m = self.step_failure(case, st, out["steps"][k])
+            if m:
+                return (k, "call %d: %s" % (k, m))
+        return None
 
     # ---------------------------------------------------------------- implementation
     @staticmethod
@@ -296,6 +624,8 @@ class P(Prop):
 
     def impl(self, case):
         C = self.C
+        if case["kind"] == "seq":
+            return self.impl_seq(case)
         t1, t2 = self.mk(case["a"]), self.mk(case["b"])
         dim, mode = case["dim"], case["mode"]
         if case["kind"] == "cmp":
@@ -321,6 +651,8 @@ class P(Prop):
         return ";".join(",".join(fbits(v) for v in pt) for pt in q) if q else "_"
 
     def requests(self, case):
+        if case["kind"] == "seq":
+            return self.req_seq(case)
         a, b = self.tok(case["a"]), self.tok(case["b"])
         dim, mode = case["dim"], case["mode"]
         if case["kind"] == "cmp":
@@ -346,6 +678,8 @@ class P(Prop):
                 "diff": fl(f[4]), "ex": fl(f[5]), "ey": fl(f[6])}
 
     def decode(self, case, replies):
+        if case["kind"] == "seq":
+            return self.dec_seq(case, replies)
         if any(r.startswith("err:") for r in replies):
             return {"err": [r for r in replies if r.startswith("err:")][0]}
         if case["kind"] == "cmp":
@@ -362,6 +696,8 @@ class P(Prop):
         return res
 
     def compare(self, case, impl_out, model_out):
+        if case["kind"] == "seq":
+            return self.cmp_seq(case, impl_out, model_out)
         if "err" in impl_out or "err" in model_out:
             if impl_out.get("err") == model_out.get("err"):
                 return None
@@ -407,6 +743,9 @@ class P(Prop):
 
     # ---------------------------------------------------------------- oracle (transfer)
     def spec(self, case, out):
+        if case["kind"] == "seq":
+            f = self.first_failure(case, out)
+            return f[1] if f else None
         t1, t2 = pts(case["a"]), pts(case["b"])
         n1, n2 = len(t1), len(t2)
         if n1 == 0 or n2 == 0:
@@ -441,8 +780,68 @@ class P(Prop):
                 return "%s: compare(FRECHET) = %r, the discrete Frechet distance is %r" % (what, o["compare"], want)
         return None
 
+    def classify(self, case, impl_out, msg):
+        """two classes, each a decidable predicate on the first failing call of a session:
+        p-numpy-type-name-without-int-or-float: p is a numpy scalar of type longlong / ulonglong / longdouble with a value other
+            than 0 and infinity, and the call raised UnboundLocalError (`_p2weight` recognises numbers by the substrings
+            'int' / 'float' of the type name);
+        fdtw-exponent-float16-float32: FDTW (match or compare) with a finite p >= 1 given as numpy.float16 / numpy.float32:
+            `_fdtw` raises a Python float to that power, which numpy evaluates in the precision of the exponent"""
+        if case.get("kind") != "seq" or not isinstance(impl_out, dict) or "steps" not in impl_out:
+            return None
+        f = self.first_failure(case, impl_out)
+        if not f:
+            return None
+        st, o = case["steps"][f[0]], impl_out["steps"][f[0]]
+        cls = self.gated(st["f"], st["mode"], st["p"], st["pf"])
+        if cls == CLS_UNBOUND and o.get("err") == "err:UnboundLocalError":
+            return cls
+        if cls == CLS_LOWPREC and "err" not in o:
+            return cls
+        return None
+
     # ---------------------------------------------------------------- shrinking / search
+    def shrink_seq(self, case):
+        steps, nt = case["steps"], len(case["tracks"])
+        # drop the last call; drop a call nobody refers to (later references renumbered)
+        for k in range(len(steps) - 1, -1, -1):
+            if len(steps) > 1 and not any(r == "r%d" % k for st in steps for r in (st["a"], st["b"])):
+                def ren(r):
+                    return "r%d" % (int(r[1:]) - 1) if r[0] == "r" and int(r[1:]) > k else r
+                yield dict(case, steps=[dict(st, a=ren(st["a"]), b=ren(st["b"])) for i, st in enumerate(steps) if i != k])
+        if any(q != "none" for q in case["pre"]):
+            yield dict(case, pre=["none"] * nt)
+        # plainer calls
+        for k, st in enumerate(steps):
+            plain = dict(st, mf="const", df="int", vb="F", st="kw")
+            if plain != st:
+                yield dict(case, steps=steps[:k] + [plain] + steps[k + 1:])
+            if st["pf"] not in ("int", "float"):
+                yield dict(case, steps=steps[:k] + [dict(st, pf="float" if st["p"] == "inf" else "int")] + steps[k + 1:])
+            if st["a"][0] == "r":
+                yield dict(case, steps=steps[:k] + [dict(st, a=steps[int(st["a"][1:])]["a"])] + steps[k + 1:])
+            if st["b"][0] == "r":
+                yield dict(case, steps=steps[:k] + [dict(st, b=steps[int(st["b"][1:])]["a"])] + steps[k + 1:])
+            if st["dim"] != 2 and st["dim"] != 1:
+                yield dict(case, steps=steps[:k] + [dict(st, dim=2)] + steps[k + 1:])
+        # smaller tracks, smaller coordinates
+        trs = [pts(t) for t in case["tracks"]]
+        for i, t in enumerate(trs):
+            for k in range(len(t)):
+                if len(t) > 1:
+                    yield dict(case, tracks=trs[:i] + [t[:k] + t[k + 1:]] + trs[i + 1:])
+        for i, t in enumerate(trs):
+            for k in range(len(t)):
+                for c in range(3):
+                    if t[k][c] != 0:
+                        t2 = [list(q) for q in t]
+                        t2[k][c] = 0.0 if abs(t[k][c]) <= 1 else float(int(t[k][c] / 2))
+                        yield dict(case, tracks=trs[:i] + [t2] + trs[i + 1:])
+
     def shrink(self, case):
+        if case["kind"] == "seq":
+            yield from self.shrink_seq(case)
+            return
         if case["kind"] == "m" and len(case["ps"]) > 1:
             for p in case["ps"]:
                 yield dict(case, ps=[p])
@@ -466,6 +865,14 @@ class P(Prop):
         return self.cases(rng, "quick")
 
     def mutate(self, case, rng):
+        if case["kind"] == "seq":
+            for _ in range(20):
+                trs = [[list(q) for q in pts(t)] for t in case["tracks"]]
+                for tr in trs:
+                    if tr:
+                        tr[rng.randrange(len(tr))] = [float(rng.randint(0, 2)), float(rng.randint(0, 2)), float(rng.randint(0, 2))]
+                yield dict(case, tracks=trs)
+            return
         a, b = pts(case["a"]), pts(case["b"])
         if not a or not b:
             return
